@@ -227,18 +227,20 @@ fn nth_graph(n: usize, k: u64) -> Graph {
     Graph { n, succ }
 }
 
-fn exhaustive(ctx: &Ctx, n: usize, stats: &Stats) -> Vec<(u64, Bad)> {
+fn exhaustive(ctx: &Ctx, n: usize, stats: &std::sync::Arc<Stats>) -> (Vec<(u64, Bad)>, bool) {
     let total: u64 = 1u64 << (n * (n - 1));
     let chunks: Vec<(u64, u64)> = {
-        let c = 64u64.min(total);
+        let c = 256u64.min(total);
         (0..c).map(|i| (total * i / c, total * (i + 1) / c)).collect()
     };
     let all: u64 = (1u64 << n) - 1;
-    let fails = run_items(ctx, &chunks, |_, (lo, hi)| {
+    let st = stats.clone();
+    let job = std::sync::Arc::new(move |_: usize, range: &(u64, u64)| -> Verdict {
+        let (lo, hi) = *range;
         let mut rooted = 0u64;
         let mut nontriv = 0u64;
         let mut first: Option<(u64, Bad)> = None;
-        for k in *lo..*hi {
+        for k in lo..hi {
             let g = nth_graph(n, k);
             if g.reach(None) != all {
                 continue;
@@ -248,20 +250,26 @@ fn exhaustive(ctx: &Ctx, n: usize, stats: &Stats) -> Vec<(u64, Bad)> {
                 nontriv += 1;
             }
             if let Err(b) = check_graph(&g) {
-                if first.is_none() {
-                    first = Some((k, b));
-                }
+                first = Some((k, b));
+                break;
             }
         }
-        stats.eval(rooted);
-        stats.class_n(&format!("exhaustive_rooted_graphs_n{n}"), rooted);
-        stats.class_n("exhaustive_nontrivial", nontriv);
+        st.eval(rooted);
+        st.class_n(&format!("exhaustive_rooted_graphs_n{n}"), rooted);
+        st.class_n("exhaustive_nontrivial", nontriv);
         match first {
             None => Ok(()),
             Some((k, b)) => Err(Bad { reason: format!("[graph #{k} on {n} nodes] {}", b.reason), ..b }),
         }
     });
-    fails
+    let (fails, hung) = run_detached(
+        chunks.clone(),
+        ctx.threads,
+        job,
+        std::time::Duration::from_secs(20),
+        std::time::Duration::from_secs(300),
+    );
+    let fails = fails
         .into_iter()
         .map(|(i, b)| {
             let k: u64 = b
@@ -273,7 +281,8 @@ fn exhaustive(ctx: &Ctx, n: usize, stats: &Stats) -> Vec<(u64, Bad)> {
                 .unwrap_or(chunks[i].0);
             (k, b)
         })
-        .collect()
+        .collect();
+    (fails, hung)
 }
 
 /// Random graph from a tape: several shapes, all nodes reachable by construction.
@@ -398,7 +407,7 @@ pub fn replay(_ctx: &Ctx, check: &str, tape: &[u8]) -> Verdict {
     let stats = Stats::new();
     let rec = Rec::new(&stats, false);
     match check {
-        "random_graphs" => random_case(tape, &rec),
+        "random_graphs" | "fuzz_domtree" => random_case(tape, &rec),
         "exhaustive" => {
             let s = String::from_utf8_lossy(tape).to_string();
             let mut it = s.split_whitespace();
@@ -412,11 +421,13 @@ pub fn replay(_ctx: &Ctx, check: &str, tape: &[u8]) -> Verdict {
 
 pub fn run(ctx: &Ctx) -> i32 {
     let start = Instant::now();
-    let stats = Stats::new();
+    let stats_arc = std::sync::Arc::new(Stats::new());
+    let stats: &Stats = &stats_arc;
     let mut outcome = Outcome::new();
     let known = load_known("C15");
 
     let max_n = 5;
+    let mut hung_note = String::new();
     for n in 1..=max_n {
         if n == 1 {
             let g = Graph { n: 1, succ: vec![0] };
@@ -435,7 +446,8 @@ pub fn run(ctx: &Ctx) -> i32 {
             }
             continue;
         }
-        let fails = exhaustive(ctx, n, &stats);
+        let (fails, hung) = exhaustive(ctx, n, &stats_arc);
+        let any = !fails.is_empty();
         outcome.absorb(
             &known,
             fails
@@ -449,6 +461,28 @@ pub fn run(ctx: &Ctx) -> i32 {
                 })
                 .collect(),
         );
+        if hung {
+            hung_note = format!("DominatorTree::new did not return on some graph with {n} nodes (worker threads abandoned)");
+            if !any {
+                // a pure hang without any wrong answer: infrastructure verdict, not a violation
+                eprintln!("INFRA: watchdog: {hung_note}");
+                return 2;
+            }
+            // violations are already known: report them and leave the hung workers behind
+            let code = finish(
+                ctx,
+                stats,
+                &outcome,
+                EvidenceSpec {
+                    level: "exploration",
+                    rule: "exhaustive enumeration of rooted digraphs (run cut short: the function under test did not return on some graph after wrong answers had been found)",
+                    assumptions: vec![hung_note.clone()],
+                    extra: json!({"aborted_after_violation": true}),
+                },
+                start,
+            );
+            std::process::exit(code);
+        }
     }
     // count of distinct non-trivial exhaustive graphs (all enumerated graphs are distinct)
     let exhaustive_nontrivial = stats.class_count("exhaustive_nontrivial");
@@ -459,6 +493,11 @@ pub fn run(ctx: &Ctx) -> i32 {
     let fails = run_tapes(ctx, "random_graphs", cases, 400, &stats, random_case);
     outcome.absorb(&known, fails);
 
+    let fuzz = fuzz_stage(ctx, &stats, &mut outcome, &known, "domtree", 8, 1_000_000, 400, &[], &|a| {
+        let mut t = Tape::new(a);
+        let (g, _) = decode_graph(&mut t);
+        check_graph(&g)
+    });
     // fold the exhaustive non-trivial count into the distinct counter by hashing (n,k) is
     // unnecessary: report it separately and add it in `extra`.
     finish(
@@ -472,7 +511,7 @@ pub fn run(ctx: &Ctx) -> i32 {
                 "entry node is index 0 and has no predecessors; all nodes reachable (the property's precondition)".into(),
                 "reference = reachability with one node removed (harness/src/props/c15.rs)".into(),
             ],
-            extra: json!({"exhaustive": true, "exhaustive_scope": "all rooted digraphs with <= 5 nodes; larger graphs are sampled", "exhaustive_distinct_nontrivial": exhaustive_nontrivial}),
+            extra: json!({"exhaustive": true, "exhaustive_scope": "all rooted digraphs with <= 5 nodes; larger graphs are sampled", "exhaustive_distinct_nontrivial": exhaustive_nontrivial, "coverage_guided_stage": fuzz}),
         },
         start,
     )
